@@ -507,7 +507,9 @@ def addResponseBody (d : BDir) (anc : List Up) (b : BodyM) (c : Cat) : R Cat := 
 def addResponse (d : BDir) (anc : List Up) (c : Cat) : R Cat :=
   let sn := d.param "SchemaNotation"
   let typ := d.param "Type"
-  if !sn.isEmpty && !typ.isEmpty then fail d .typeAndNotation
+  -- F71: the annotation of a Body directive below a response was dropped silently (below a Request it is refused)
+  if d.kind == .Body && !d.annot.isEmpty then fail d .annotationForbidden
+  else if !sn.isEmpty && !typ.isEmpty then fail d .typeAndNotation
   else do
     let nt ← liftAt d (newNotation sn)
     let b : BodyM := { format := formatOf nt, nota := nt }
